@@ -12,7 +12,7 @@
                    exist yet, and every selected file was below max_size (or empty) before its last
                    write  -- the empty directory satisfies it, and so does every directory left by an
                    earlier run with the same settings (it is preserved by every step)
-     compat c o    o is a write of c itself, a write of a logger whose name is not prefix-related to
+     compat c o    o is a write of c itself (with or without a failing rename), a write of a logger whose name is not prefix-related to
                    c's, or a rule dump (c's name not prefix-related to "AuthorizationRules_")
      trace d ops   the directory after EVERY step of the history ops started on d
    A restart is not an operation: RollingLogger and write_all keep no state in memory, so "after a
@@ -55,6 +55,14 @@ Theorem C19_log_write_effect : forall (c : logcfg) (ts : bytes) (lens : list N) 
             (esize e - total_bytes lens < lmax_size c \/ esize e = total_bytes lens).
 Proof. exact write_many_effect. Qed.
 Print Assumptions C19_log_write_effect.
+
+(* when archiving fails (rename error: [OWriteRF] in the histories above, covered by C19_log_count and
+   C19_log_size like any other step) a file at or beyond the limit is never appended to: the write
+   is refused, the directory is unchanged *)
+Theorem C19_log_roll_failure_refuses : forall (c : logcfg) (lens : list N) (d : dir) (e : ent),
+  dfind (cur_name c) d = Some e -> lmax_size c <= esize e -> write_many_rf c lens d = d.
+Proof. exact write_many_rf_refuses. Qed.
+Print Assumptions C19_log_roll_failure_refuses.
 
 (* -------- rolling logs: the files removed are the (lexicographically) oldest -------- *)
 Theorem C19_log_oldest_first : forall (c : logcfg) (ts : bytes) (lens : list N) (d : dir) (r k : bytes),
@@ -163,18 +171,26 @@ Theorem C19_event_cap : forall (cap : N) (ops : list evop) (s : evstate),
 Proof. exact event_cap_history. Qed.
 Print Assumptions C19_event_cap.
 
-(* at the cap, a flush drops the queued events and leaves the directory alone *)
+(* at the cap, a flush -- the periodic one and the one of the pass that sees stop() -- drops the
+   queued events and leaves the directory alone *)
 Theorem C19_event_drop_at_cap : forall (cap : N) (ts : bytes) (s : evstate),
-  cap <= ev_count s -> evq s <> 0 -> ev_tick cap ts s = {| evdir := evdir s; evq := 0 |}.
+  cap <= ev_count s ->
+  evdir (ev_tick cap ts s) = evdir s /\ (evphase s <> Done -> evq (ev_tick cap ts s) = 0).
 Proof. exact ev_tick_drop. Qed.
 Print Assumptions C19_event_drop_at_cap.
 
 Theorem C19_event_written_below_cap : forall (cap : N) (ts : bytes) (s : evstate),
-  ev_count s < cap -> evq s <> 0 ->
+  ev_count s < cap -> evq s <> 0 -> evphase s <> Done ->
   dfind (ts ++ ev_ext) (evdir (ev_tick cap ts s)) = Some (ts ++ ev_ext, evq s, 0) /\
   evq (ev_tick cap ts s) = 0.
 Proof. exact ev_tick_write. Qed.
 Print Assumptions C19_event_written_below_cap.
+
+(* once the loop has seen stop() and left, no operation but a restart changes anything *)
+Theorem C19_event_done_frozen : forall (cap : N) (s : evstate) (o : evop),
+  evphase s = Done -> o <> ERestart -> ev_step cap s o = s.
+Proof. exact ev_done_frozen. Qed.
+Print Assumptions C19_event_done_frozen.
 
 (* from an over-limit event directory: the logger never deletes (the reader does), and never adds *)
 Theorem C19_event_never_grows_over : forall (cap : N) (ops : list evop) (s : evstate),
@@ -187,15 +203,15 @@ Print Assumptions C19_event_never_grows_over.
 Definition nv_cfg : logcfg := {| lname := [97; 46; 108; 111; 103]; lmax_size := 10; lmax_count := 2 |}.
 Definition nv_ops : list op :=
   [OWrite nv_cfg [49] [11]; OWrite nv_cfg [50] [3]; OWrite nv_cfg [51] [20]; OWrite nv_cfg [52] [0];
-   ODump 1 [49] 7; ODump 1 [50] 7].
+   ODump 1 [49] 7; ODump 1 [50] 7; OWriteRF nv_cfg [30]; OWriteRF nv_cfg [30]; OWriteRF nv_cfg [30]].
 
 (* a reachable state at the limit: two log files (the archive has 25 bytes > max_size 10: it had 4 < 10
    bytes before its last write of 21), the second roll deleted the oldest archive, the second dump replaced the first *)
 Example C19_nonvacuous :
   wf_cfg nv_cfg /\ Forall (compat nv_cfg) nv_ops /\
-  map (fun d => lcount nv_cfg d) (trace [] nv_ops) = [1; 2; 2; 2; 2; 2] /\
-  map dcount (trace [] nv_ops) = [0; 0; 0; 0; 1; 1] /\
-  map (fun e => esize e) (lfiles nv_cfg (run [] nv_ops)) = [1; 25].
+  map (fun d => lcount nv_cfg d) (trace [] nv_ops) = [1; 2; 2; 2; 2; 2; 2; 2; 2] /\
+  map dcount (trace [] nv_ops) = [0; 0; 0; 0; 1; 1; 1; 1; 1] /\
+  map (fun e => esize e) (lfiles nv_cfg (run [] nv_ops)) = [32; 25].
 Proof.
   split; [split; vm_compute; [reflexivity|discriminate]|].
   split; [repeat (apply Forall_cons; [simpl; first [left; reflexivity | vm_compute; reflexivity]|]); apply Forall_nil|].
@@ -204,7 +220,9 @@ Qed.
 
 Example C19_event_nonvacuous :
   map (fun s => (ev_count s, evq s))
-      (ev_trace 2 {| evdir := []; evq := 0 |}
-         [EPush 3; ETick [49]; EPush 1; ETick [50]; EPush 1200; ETick [51]; ETick [52]])
-  = [(0, 3); (1, 0); (1, 1); (2, 0); (2, 1000); (2, 0); (2, 0)].
+      (ev_trace 2 {| evdir := []; evq := 0; evphase := Running |}
+         [EPush 3; ETick [49]; EPush 1; ETick [50]; EPush 1200; ETick [51]; ETick [52];
+          EPush 5; EStop; EPush 1; ETick [53]; EPush 4; ETick [54]])
+  = [(0, 3); (1, 0); (1, 1); (2, 0); (2, 1000); (2, 0); (2, 0);
+     (2, 5); (2, 5); (2, 6); (2, 0); (2, 0); (2, 0)].
 Proof. vm_compute. reflexivity. Qed.
